@@ -42,6 +42,7 @@ void Script::Load() {
     else if (key == "interm") ss >> n_interm;
     else if (key == "raise") ss >> raise_at;
     else if (key == "abort") ss >> abort_code;
+    else if (key == "warn") ss >> n_warn;
     else if (key == "poll") ss >> poll_stop;
     else if (key == "hist") {        // hist <pre|post> <kind> | vars v.. | cons <g> v.. | cons <g> v..
       Xfer x; ss >> x.dir >> x.kind;
@@ -255,6 +256,8 @@ void ScriptedBackend::ReportResults() {
             IsProblemIndiffInfOrUnb() ? "true" : "false", IsProblemInfOrUnb() ? "true" : "false");
     fflush(f);
   }
+  for (int i = 0; i < script_.n_warn; ++i)     // like a real backend noting ignored options, numerical trouble, ...
+    AddWarning("ScriptedWarning" + std::to_string(i + 1), "scripted warning " + std::to_string(i + 1) + ",\nsecond line.\n");
   for (int i = 0; i < script_.n_interm; ++i) {
     std::vector<double> x(lp()->nvars, (double)(i + 1));
     auto mv = GetValuePresolver().PostsolveSolution({x, {}, std::vector<double>{(double)(10 + i)}});
